@@ -228,6 +228,13 @@ BODY_KINDS = {
                             _r("fail", [], 24, False), 7, _r("nope", A, 25, False)],
     "batch-1.0": lambda: [_r("ok", [1], 26, False), _r("nope", A, 27, False), _r("ok", [], None, False), _r("flt", [], 28, False)],
     "batch-notifications": lambda: [_r("ok", [], A, True), _r("ok", [], None, False)],
+    # the member counts by its presence: whatever its value, the request is answered in the server's own form
+    "call-version-1.0-string": lambda: dict(_r("ok", [1], 41, True), jsonrpc="1.0"),
+    "failing-version-number-1": lambda: dict(_r("fail", [], 42, True), jsonrpc=1),
+    "unknown-version-true": lambda: dict(_r("nope", A, 43, True), jsonrpc=True),
+    "call-version-null": lambda: dict(_r("ok", [1], 44, True), jsonrpc=None),
+    "batch-odd-versions": lambda: [dict(_r("ok", [1], 45, True), jsonrpc="1.1"), dict(_r("fail", [], 46, True), jsonrpc=[2]),
+                                   _r("ok", [2], 47, False)],
 }
 TEXT_KINDS = {"unparsable": "{\"jsonrpc\": \"2.0\", \"method\": ", "empty-body": ""}
 KINDS = list(BODY_KINDS) + list(TEXT_KINDS)
